@@ -31,10 +31,14 @@ def check(v, tier, opts):
                         "ts_vsum, ts_vmin, ts_vmax, ts_vargmin, ts_vargmax, ts_vrank, ts_vminmaxnorm (two-run)",
                         "30 float kernels of features.rs / binary.rs / reg.rs / norm.rs (Engine M)"])
     v.bounds.append("Engine K: N=3 quick (2,4,5 thorough); lag n in 0..=N+2; cuts 1..=N-1; explicit min_periods, omitted only for prefix >= w")
+    v.bounds.append("Engine M prefix runs: series length 5 (5 and 6 thorough), every proper prefix 1..L-1, windows {2, L, L+2} "
+                    "(thorough {1, 2, 4, L, L+2}), min_periods omitted (prefix >= window only) or explicit in {1, L-1, L, L+1} (thorough adds 2, L+3), "
+                    "all-valid plus one sampled null mask; all real element values")
     v.bounds.append("Engine M: w in 1..=3 quick (4 thorough), L = w+2..w+3 (w+1..w+4 thorough), min_periods in {0,1,w}, sampled null masks; |x|<=100")
     v.outside.append("dependence on pre-window values at the level of floating-point rounding; +-inf / NaN poisoning by expired non-finite values (DESIGN 5.2)")
     only = opts.get("only")
     kani_engine.decide(v, "C06", tier, opts)
     if not only or only.startswith("ts_"):
         props_m.c06_m(v, tier, opts)
+        props_m.c06_prefix_m(v, tier, opts)
     return v.finish(RULE)
